@@ -60,7 +60,7 @@ var (
 func TestVerifC18CrashPoints(t *testing.T) {
 	r := vkit.Start(t, "C18", "private-key-file-crash-points", 120*time.Second, 400*time.Second)
 	defer r.Finish()
-	r.Rule = "prior state {absent, 0644, 0666, 0600} x umask {0, 022} x forceOverwrite: the real WriteToFile runs under strace; history = logged system calls on the key file (openat, fchmod, chmod, write, ftruncate, rename); EVERY prefix of the history is a crash point, replayed on a file model; non-trivial = distinct (prior state, umask, flag, crash point); oracle: in every crash state, key bytes in the file => mode & 077 == 0; conformance: final model state == real file state"
+	r.Rule = "prior state {absent, 0644, 0666, 0600} x umask {0, 022} x forceOverwrite: the real WriteToFile runs under strace; history = logged system calls on the key file (openat, fchmod, chmod, write, ftruncate, rename); EVERY prefix of the history is a crash point, and every write additionally tears after its first and before its last byte, replayed on a file model; non-trivial = distinct (prior state, umask, flag, crash point); oracle: in every crash state, key bytes in the file => mode & 077 == 0, and an existing file is untouched unless forceOverwrite; conformance: final model state == real file state"
 	if r.Shard != 0 {
 		return
 	}
@@ -86,6 +86,7 @@ func TestVerifC18CrashPoints(t *testing.T) {
 					model = c18FileModel{exists: true, mode: mode, bytes: len("old-content")}
 				}
 				syscall.Umask(old)
+				prior := model
 				logf := filepath.Join(dir, fmt.Sprintf("trace-%d.log", n))
 				cmd := exec.Command("strace", "-f", "-y", "-s", "0", "-e", "trace=openat,fchmod,fchmodat,chmod,write,pwrite64,rename,renameat,renameat2,ftruncate", "-o", logf,
 					os.Args[0], "-test.run", "^TestVerifC18Helper$")
@@ -103,8 +104,13 @@ func TestVerifC18CrashPoints(t *testing.T) {
 				fdPath := map[string]string{}
 				check := func(after string) {
 					r.Eval()
-					r.Nontrivial(fmt.Sprintf("%s|%s|%v|%d", st, um, force, events))
+					r.Nontrivial(fmt.Sprintf("%s|%s|%v|%d|%s", st, um, force, events, after))
 					r.States++
+					if prior.exists && !force && model != prior {
+						r.Violate(fmt.Sprintf("C18|existing-key-file-touched-without-forceOverwrite|crash-point|prior=%s", st),
+							fmt.Sprintf("prior=%s umask=%s: after event %d (%s) the existing file is no longer as it was (mode %o, %d bytes) although forceOverwrite is false", st, um, events, after, model.mode, model.bytes),
+							map[string]any{"prior": st, "umask": um, "event": events, "after": after})
+					}
 					if model.exists && model.keyData && model.mode&0o77 != 0 {
 						r.Violate(fmt.Sprintf("C18|private-key-file-readable-by-others|crash-point|prior=%s|force=%v", st, force),
 							fmt.Sprintf("prior=%s umask=%s force=%v: a crash right after event %d (%s) leaves key bytes in a file with mode %o", st, um, force, events, after, model.mode),
@@ -158,7 +164,17 @@ func TestVerifC18CrashPoints(t *testing.T) {
 						events++
 						r.Transitions++
 						nb, _ := strconv.Atoi(m[3])
-						model.bytes += nb
+						if nb > 1 {
+							// torn write: a crash inside the call leaves any non-empty prefix of the data
+							model.bytes++
+							model.keyData = true
+							check("write torn after 1 of " + m[3] + " bytes")
+							model.bytes += nb - 2
+							check("write torn 1 byte before the end of " + m[3] + " bytes")
+							model.bytes++
+						} else {
+							model.bytes += nb
+						}
 						model.keyData = true
 						check("write " + m[3] + " bytes")
 					case strings.Contains(line, "ftruncate(") && strings.Contains(line, "<"+fn+">"):
